@@ -96,14 +96,14 @@ func TopoSort(evs []Ev) []Ev {
 
 // Outcome is the consensus output of one run.
 type Outcome struct {
-	Events map[string]EvOut
-	Fame   map[int]map[string]int // round → witness → 1 famous / 2 not famous (decided only)
-	Decided map[int]bool          // round → its fame election is closed (RoundInfo.decided)
-	Frames map[int]string         // round → frame hash
-	Blocks []string               // body digests in delivery order
-	BlockD []string
-	Err    string
-	Misses int // reads that hit an evicted item (recording store)
+	Events  map[string]EvOut
+	Fame    map[int]map[string]int // round → witness → 1 famous / 2 not famous (decided only)
+	Decided map[int]bool           // round → its fame election is closed (RoundInfo.decided)
+	Frames  map[int]string         // round → frame hash
+	Blocks  []string               // body digests in delivery order
+	BlockD  []string
+	Err     string
+	Misses  int // reads that hit an evicted item (recording store)
 }
 
 type EvOut struct {
@@ -438,7 +438,6 @@ func (s *RecStore) GetBlock(i int) (*hg.Block, error) {
 	}
 	return b, err
 }
-
 
 // Inst is a long-lived hashgraph instance (inside a real Node) that the
 // admission checker feeds event by event.
